@@ -108,9 +108,7 @@ theorem sameFrame_emitFold (ctx : Ctx) (st : St) (n : Node) (c : CInfo) : SameFr
     · exact ⟨rfl, rfl⟩
     · split
       · split <;> exact ⟨rfl, rfl⟩
-      · split
-        · split <;> exact ⟨rfl, rfl⟩
-        · split <;> exact ⟨rfl, rfl⟩
+      · split <;> exact ⟨rfl, rfl⟩
 
 theorem sameFrame_gateCascade (ctx : Ctx) (st : St) (n : Node) (v : Nat) : SameFrame st (gateCascade ctx st n v).2 := by
   unfold gateCascade
